@@ -350,6 +350,14 @@ func (s *authzServer) validateIssuer(vContext *validationContext) error {
 		vContext.requester = requester
 	}
 
+	// the signing key (kid) must be a key of the issuer: without this check any party could sign a token with its own key
+	// (and its own, resolvable kid) while claiming to be another requester in the iss field.
+	if keyHolder, err := resolver.GetDIDFromURL(vContext.kid); err != nil {
+		return fmt.Errorf(errInvalidIssuerKeyFmt, err)
+	} else if keyHolder.String() != vContext.requester.String() {
+		return fmt.Errorf(errInvalidIssuerKeyFmt, errors.New("signing key is not a key of the issuer"))
+	}
+
 	validationTime := vContext.jwtBearerToken.IssuedAt()
 	metadata := &resolver.ResolveMetadata{
 		ResolveTime: &validationTime,
